@@ -31,6 +31,13 @@ pub fn c01(out: &mut Out, thorough: bool) {
     let mut ps = positions(&mut rng, n);
     // the fullest move lists there are: 16 mobile men and two en-passant capturers
     extremal(&mut rng, &mut ps, if thorough { 3_000 } else { 150 });
+    // fixed corpus: en-passant captures that change three lines of the board at once (own king on the capture file,
+    // lines through the vacated and the departure square)
+    for f in crate::engine::load_ep_mates() {
+        if let Some(b) = crate::common::guard(|| chess_movegen::fen::parse_fen(f.as_bytes()).ok()).flatten() {
+            ps.push(Tagged { board: b, tag: "en-passant-mate-root" });
+        }
+    }
     let triples = all_triples();
     for (idx, t) in ps.iter().enumerate() {
         let b = t.board;
@@ -134,6 +141,15 @@ pub fn candidate_moves(v: &View) -> Vec<ChessMove> {
         for df in [-1i32, 1] {
             let sf = f as i32 + df;
             if (0..8).contains(&sf) {
+                out.push(mk(pr * 8 + sf, tr * 8 + f as i32, None));
+            }
+        }
+        // ... and from every other own pawn on that rank, however far (a table of neighbouring files that wraps around
+        // the edge of the board would let a pawn on the h-file capture towards the a-file)
+        for sf in 0..8i32 {
+            let c = v.squares[(pr * 8 + sf) as usize];
+            let own_pawn = if white { c == b'P' } else { c == b'p' };
+            if own_pawn && (sf - f as i32).abs() > 1 {
                 out.push(mk(pr * 8 + sf, tr * 8 + f as i32, None));
             }
         }
